@@ -95,14 +95,16 @@ Definition gate_model (g : gate_in) : N :=
       code (commit_should_accept d r t g s (if N.eqb r 0 then 0%N else c) i rmn f)
   | GExecA n d cr c => code (exec_should_accept n d cr (if N.eqb cr 0 then 0%N else c))
   end.
-(* the C16 gate clauses stated directly on the implementation's answer *)
+(* the C16 gate clauses stated directly on the implementation's answer (transmit also needs a decodable report and, for
+   commit, a passed roots-state check: all conjuncts of C16_commit_transmit_only_active /
+   C16_exec_transmit_only_active_writer; proved sound in Proofs/JudgeSoundC16P.v) *)
 Definition gate_ok (g : gate_in) (o : N) : bool :=
   match g with
   | GCommitT my cand d r =>
-      if N.eqb o 1 then match cand with Some c => negb (N.eqb c my) | None => false end else true
+      if N.eqb o 1 then match cand with Some c => negb (N.eqb c my) | None => false end && d && r else true
   | GExecT w my cand d =>
       if N.eqb o 1 then
-        match w, cand with Some true, Some c => negb (N.eqb c my) | _, _ => false end
+        match w, cand with Some true, Some c => negb (N.eqb c my) | _, _ => false end && d
       else true
   | GCommitA d r t g s c i rmn f =>
       if N.eqb o 1 then negb (commit_report_empty r t g s) else true
